@@ -232,6 +232,6 @@ def strat(draw, tier):
 
 
 PARTS = [
-    Part("flip_parity", exec_case, strategy=strat, examples={"quick": 3000, "thorough": 200000}, shards={"quick": 16, "thorough": 16},
+    Part("flip_parity", exec_case, strategy=strat, examples={"quick": 6000, "thorough": 200000}, shards={"quick": 16, "thorough": 16},
          budget_s={"quick": 60, "thorough": 1200}, describe="generated WCS x object kinds x operation sequences"),
 ]
